@@ -62,6 +62,10 @@ def gen_cases(ctx):
     # decoding parameters stay in force for every following frame: checksum verification on / off between frames of one context
     for a in (0, 1):
         for b in (0, 1):
+            # the window limit stays in force for every following frame, in both output buffer modes, across session resets; gone after a parameter reset
+            for stable in (0, 1):
+                cases.append(("dwin effect", ["new d", "set 100 %d" % (12 + a), "set 1001 %d" % stable, "dwin 11", "dwin 14", "dwin 20", "dwin 14", "reset 1", "dwin 20", "dwin 12",
+                                              "set 100 21", "dwin 20", "dwin 22", "reset 2", "dwin 22", "set 1001 %d" % stable, "dwin 28" if b else "dwin 27", "dwin 16"]))
             cases.append(("dframe effect", ["new d", "dframe %d 0" % a, "dframe 1 0", "set 1002 1", "dframe 0 0", "dframe 1 0", "dframe %d 1" % b, "set 1002 0", "dframe 1 0", "dframe 0 0", "dframe 1 1",
                                             "set 1002 1", "reset 1", "dframe 1 0", "reset 2", "dframe 1 0", "dframe 0 0"]))
     # unknown parameter ids
@@ -504,6 +508,17 @@ def monitor(ctx, lines, couts):
                 started = True      # failed after the frame was begun: like ZSTD_compress2, the context stays mid-frame
             else:
                 return "ZSTD_compressSequences of %s literal bytes failed (%s) with an accepted parameter state" % (w[1], status)
+        elif w[0] == "dwin" and kind == "d":
+            started = False
+            # the window limit in force (ZSTD_d_windowLogMax, 0 = the default 27) decides, whatever the other parameters say (output buffer mode, checksums, ...)
+            idx = [i for i, p in enumerate(ps) if p["id"] == 100]
+            lim = int(vals[idx[0]]) if idx else 0
+            lim = lim or 27
+            wl_ = int(w[1])
+            if wl_ > lim and status != "err:window":
+                return "a frame declaring a 2^%d window was not refused for its window (%s) although ZSTD_d_windowLogMax reads back %d (parameters in force: %s)" % (wl_, status, lim, " ".join(vals))
+            if wl_ <= lim and not status.startswith("ok"):
+                return "a valid frame declaring a 2^%d window was refused (%s) with ZSTD_d_windowLogMax = %d in force (parameters: %s)" % (wl_, status, lim, " ".join(vals))
         elif w[0] == "dframe":
             started = False        # the harness resets the session before and after the frame
             idx = [i for i, p in enumerate(ps) if p["id"] == 1002]
